@@ -295,6 +295,10 @@ func (fr *Frame) contractCall(fn *ssa.Function, fc *FuncContract, args []Val, bi
 	for _, c := range fc.Ensures {
 		vc.assume(st, post.clause(c))
 	}
+	for _, c := range fc.Trusts {
+		vc.assume(st, post.clause(c))
+		vc.note("trusted (unproved) postcondition assumed at call sites: " + shortFuncName(fn) + "#" + c.Name + ": " + c.Src)
+	}
 	if fc.Extern {
 		vc.note("extern contract assumed: " + fc.Key)
 	} else if fc.Trusted {
@@ -435,6 +439,8 @@ func (e *Engine) verifyFunc(fn *ssa.Function, fc *FuncContract, sweepProps []str
 		for _, c := range fc.Ensures {
 			g := post.clause(c)
 			vc.oblige(res.st, "ensures", vc.oname(c.Name), vc.pos(fn.Pos()), "postcondition: "+c.Src, g, c.Props)
+			// later postconditions may use earlier ones as lemmas (each is still proved on its own)
+			vc.assume(res.st, g)
 		}
 		if fc.HasMod {
 			pre := vc.paramEnv(fn, fc, args, bind, vc.entry, vc.entry)
